@@ -15,7 +15,7 @@
 //!   is the negative control of this device (run.sh expects Kani to reject it).
 //! * closure-taking functions are instantiated with a closure over a symbolic parameter (`|x| x > t`, …); for that
 //!   closure `f.requires(..)` is `true` and `f.ensures((x,), r)` is `r == body(x)`.
-//! * narrowed harnesses (`i8_*`, `i16_*`, `u8_*`, `u16_*`, `i64_mul_*`, `*_bounded`, `*_base10`, `*_exp*`) are
+//! * narrowed harnesses (`i8_*`, `i16_*`, `u8_*`, `i64_mul_*`, `*_bounded`, `*_base10`, `*_exp*`) are
 //!   cross-checks on a smaller domain, NOT proofs of the i128 / u32 specification; README.md says which are which.
 //!   `*_unfinished` harnesses are the full-width statements CBMC does not decide within the time limit.
 #![cfg(kani)]
@@ -186,7 +186,7 @@ fn u32_div_ceil_via_divrem() {
 }
 /// narrower literal cross-checks (u16::div_ceil / u8::div_ceil are the same `uint_impl!` macro body as u32::div_ceil)
 #[kani::proof]
-fn u16_div_ceil() {
+fn u16_div_ceil_unfinished() {
     let a: u16 = kani::any();
     let rhs: u16 = kani::any();
     kani::assume(rhs != 0);
@@ -410,7 +410,7 @@ macro_rules! divrem_harnesses {
 }
 divrem_harnesses!(i128, u128, i128_div_is_rust_div_unfinished, i128_rem_is_rust_rem_unfinished, i128_divrem_by0_never_returns, i128_divrem_min_m1_never_returns);
 // narrower cross-checks (same compiler primitive at another width; NOT a proof of the i128 statement); i32, i64 do not finish
-divrem_harnesses!(i16, u16, i16_div_is_rust_div, i16_rem_is_rust_rem, i16_divrem_by0_never_returns, i16_divrem_min_m1_never_returns);
+divrem_harnesses!(i16, u16, i16_div_is_rust_div, i16_rem_is_rust_rem_unfinished, i16_divrem_by0_never_returns, i16_divrem_min_m1_never_returns);
 divrem_harnesses!(i8, u8, i8_div_is_rust_div, i8_rem_is_rust_rem, i8_divrem_by0_never_returns, i8_divrem_min_m1_never_returns);
 
 /// division-free form, i8 in i32 arithmetic: q = a / b, r = a % b are THE truncating quotient and remainder:
